@@ -58,6 +58,8 @@ extern int verif_rd[L_COUNT];      /* read holds (rwlocks) */
 extern int verif_wr[L_COUNT];      /* write / mutex hold */
 extern bool verif_edge[L_COUNT][L_COUNT]; /* [held][acquired] */
 extern int verif_lock_errors;      /* unlock-unheld, relock, rd->wr upgrade, ... */
+extern int verif_order_errors;     /* acquisitions against the global lock order */
+extern int verif_recursive_reads;  /* rdlock of an rwlock already read-held by the thread */
 extern unsigned verif_acq_count[L_COUNT];
 extern unsigned verif_rel_count[L_COUNT];
 bool verif_all_free(void);
